@@ -124,7 +124,7 @@ def topdown_predictor(sf, c_stride, i_stride, sigma, c_scale, i_scale, max_hw, m
     return pred, cnet, inet
 
 
-def bottomup_predictor(sf, cms_stride, paf_stride, sigma, paf_sigma, scale, max_hw, max_stride, batch_size, refinement, log, max_instances=None):
+def bottomup_predictor(sf, cms_stride, paf_stride, sigma, paf_sigma, scale, max_hw, max_stride, batch_size, refinement, log, max_instances=None, max_edge_length_ratio=0.5):
     from omegaconf import OmegaConf
     from sleap_nn.inference.predictors import BottomUpPredictor
 
@@ -134,7 +134,7 @@ def bottomup_predictor(sf, cms_stride, paf_stride, sigma, paf_sigma, scale, max_
                                                                    "pafs": {"edges": [[names[a], names[b]] for a, b in sf.scene.edges], "sigma": paf_sigma, "output_stride": paf_stride, "loss_weight": 1.0}}})
     net = on.OracleBottomUp(sf.scene, cms_stride, paf_stride, sigma, paf_sigma, max_stride=max_stride, log=log)
     pred = BottomUpPredictor(bottomup_config=cfg, bottomup_model=net, backbone_type="unet", skeletons=[sf.skel], peak_threshold=0.2, integral_refinement=refinement,
-                             integral_patch_size=5, batch_size=batch_size, max_instances=max_instances, min_line_scores=0.25, n_points=10, max_edge_length_ratio=0.5)
+                             integral_patch_size=5, batch_size=batch_size, max_instances=max_instances, min_line_scores=0.25, n_points=10, max_edge_length_ratio=max_edge_length_ratio)
     pred._initialize_inference_model()  # as from_trained_models() does
     return pred, net
 
